@@ -1198,6 +1198,9 @@ func ruleL8(c *Ctx) *RuleResult {
 	for _, t := range targets {
 		fn := c.Method("", t.typ, t.name)
 		key := t.typ + "." + t.name + "|entry-lockset"
+		if fn == nil && t.typ == "Muxer" && strings.HasSuffix(t.name, "Inner") {
+			fn = c.muxerFanOut(strings.TrimSuffix(t.name, "Inner"))
+		}
 		if fn == nil {
 			r.undecided("%s.%s not found", t.typ, t.name)
 			continue
